@@ -297,6 +297,6 @@ def check_deep(data: dict, lab: Labels) -> None:
     lab.nontrivial = True
 
 
-PARTS = [Part("trees", check_tree, strategy=st_case_t, quick=2400, thorough=48000),
+PARTS = [Part("trees", check_tree, strategy=st_case_t, quick=6400, thorough=128000),
          Part("deep", check_deep, enumerate=enum_deep,
               exhaustive_note="4 chain shapes x depth 2x (thorough: and 4x) the recursion limit x {no predicate, prune, filter}")]
